@@ -99,6 +99,9 @@ def replay_case(case):
         return case
     if isinstance(text, bytes) or len(text) > 20000:
         return dict(case, id=id_)
+    if case.get("seq"):
+        # replay needs the whole prefix of the sequence in the same process
+        return {"k": "seq", "id": case["seq"], "items": case["seq_items"], "judged": id_}
     return {"k": "src", "id": id_, "text": text, "filename": filename, "mode": mode, "opt": opt}
 
 
@@ -106,7 +109,15 @@ def iter_cases(shard):
     """Yield (case, id, code, text) for every compilable case of a shard."""
     import time
     slow = []
+    expanded = []
     for case in shard["cases"]:
+        if case["k"] == "seq":
+            for n, it in enumerate(case["items"]):
+                expanded.append({"k": "src", "id": "%s#%d" % (case["id"], n), "text": it["text"], "filename": it["filename"],
+                                 "seq": case["id"], "seq_items": case["items"][:n + 1]})
+        else:
+            expanded.append(case)
+    for case in expanded:
         id_, code, text = compile_case(case)
         if code is None:
             H.count("skipped:" + text)
